@@ -36,7 +36,14 @@ func ZipTypeNew(metatype *Type, args Tuple, kwargs StringDict) (Object, error) {
 		item := args[i]
 		iter, err := Iter(item)
 		if err != nil {
-			return nil, ExceptionNewf(TypeError, "zip argument #%d must support iteration", i+1)
+			// only "this is not iterable" is reworded: whatever an
+			// __iter__ method raises is the caller's to see
+			if IsException(TypeError, err) {
+				if _, isUser, _ := TypeCall0(item, "__iter__"); !isUser {
+					return nil, ExceptionNewf(TypeError, "zip argument #%d must support iteration", i+1)
+				}
+			}
+			return nil, err
 		}
 		itTuple[i] = iter
 	}
@@ -50,6 +57,10 @@ func (z *Zip) M__iter__() (Object, error) {
 }
 
 func (z *Zip) M__next__() (Object, error) {
+	// zip() of nothing is empty, not an endless supply of ()
+	if z.size == 0 {
+		return nil, StopIteration
+	}
 	result := make(Tuple, z.size)
 	for i := 0; i < z.size; i++ {
 		value, err := Next(z.itTuple[i])
